@@ -135,13 +135,18 @@ func TestC14_MiMC_OneShot(t *testing.T) {
 			if pb, err := R.Blocks(msg, le); err != nil || !eqBigs(pb, blocks) {
 				t.Fatalf("HARNESS: reference block parser disagrees with the constructed message")
 			}
-			in := append([]byte{}, msg...)
+			backing := msg
+			if rapid.Bool().Draw(t, "spare") { // the message is the prefix of a larger array with a poisoned tail
+				backing, msg = withSpare(t, msg, m.blockSize)
+				classes["mimc:spare_capacity_poison"] = true
+			}
+			in := append([]byte{}, backing...)
 			wn, err := h.Write(msg)
 			if err != nil || wn != len(msg) {
 				t.Fatalf("%s: Write(%d canonical blocks) = (%d, %v), want (%d, nil)", key, n, wn, err, len(msg))
 			}
-			if !bytes.Equal(in, msg) {
-				t.Fatalf("%s: Write modified its argument", key)
+			if !bytes.Equal(in, backing) {
+				t.Fatalf("%s: Write modified its argument (or the bytes beyond len)", key)
 			}
 			got := h.Sum(nil)
 			if !bytes.Equal(got, want) {
@@ -305,9 +310,15 @@ func TestC14_Poseidon2_Perm(t *testing.T) {
 			}
 			key += " in=" + bigs(in)
 			snapshot := bigs(in)
-			got, err := lib.Permute(in)
+			// in half of the cases the buffer is the prefix of a larger array whose tail holds poison
+			spare := 0
+			if rapid.Bool().Draw(t, "spare") {
+				spare = rapid.SampledFrom([]int{1, 3, w, 2*w + 1}).Draw(t, "spareN")
+				cls = append(cls, "perm:spare_capacity_poison")
+			}
+			got, err := lib.PermuteSpare(in, spare)
 			if err != nil {
-				t.Fatalf("%s: Permutation returned %v", key, err)
+				t.Fatalf("%s: Permutation (len %d, cap %d) returned %v", key, w, w+spare, err)
 			}
 			if bigs(in) != snapshot {
 				t.Fatalf("HARNESS: adapter modified the input")
@@ -316,7 +327,9 @@ func TestC14_Poseidon2_Perm(t *testing.T) {
 			if !eqBigs(got, want) {
 				t.Fatalf("%s: Permutation\n got %s\nwant %s", key, bigs(got), bigs(want))
 			}
-			// wrong buffer size => ErrInvalidSizebuffer (an error, not a panic)
+			// wrong buffer size => ErrInvalidSizebuffer (an error, not a panic). The short/long buffer always lives
+			// inside a larger poisoned array, so a kernel that runs over the width regardless of len(input)
+			// is observed as a touched tail instead of corrupting the heap of the test process.
 			bad := rapid.SampledFrom([]int{0, 1, w - 1, w + 1, 2 * w}).Draw(t, "badlen")
 			if bad != w && bad >= 0 {
 				short := make([]*big.Int, bad)
@@ -324,8 +337,11 @@ func TestC14_Poseidon2_Perm(t *testing.T) {
 					short[i] = big.NewInt(int64(i))
 				}
 				var e2 error
-				if msg := guard(func() { _, e2 = lib.Permute(short) }); msg != "" {
+				if msg := guard(func() { _, e2 = lib.PermuteSpare(short, 2*w+8) }); msg != "" {
 					t.Fatalf("%s: Permutation on %d elements panicked: %s", key, bad, msg)
+				}
+				if te, ok := e2.(*tailError); ok {
+					t.Fatalf("%s: wrong-size buffer (%d elements, width %d): %s", key, bad, w, te.msg)
 				}
 				if e2 == nil {
 					t.Fatalf("%s: Permutation accepted a buffer of %d elements (width %d)", key, bad, w)
@@ -340,15 +356,22 @@ func TestC14_Poseidon2_Perm(t *testing.T) {
 					t.Fatalf("%s: BlockSize() = %d but Compress operands/results are %d bytes (hash.Compressor: \"all the inputs and outputs are of the same size, which is the block size\")", key, lib.BlockSize(), bs)
 				}
 				l, r := R.EncodeElems(in[:n]), R.EncodeElems(in[n:])
-				l0, r0 := append([]byte{}, l...), append([]byte{}, r...)
+				lb, rb := l, r // backing arrays
+				if rapid.Bool().Draw(t, "cspare") {
+					lb, l = withSpare(t, l, bs)
+					rb, r = withSpare(t, r, bs)
+					cls = append(cls, "compress:spare_capacity_poison")
+				}
+				l0, r0 := append([]byte{}, lb...), append([]byte{}, rb...)
 				out, err := lib.Compress(l, r)
 				wantC, _ := R.Compress(l, r)
 				if err != nil || !bytes.Equal(out, wantC) {
 					t.Fatalf("%s: Compress = %x, %v\nwant %x", key, out, err, wantC)
 				}
-				if !bytes.Equal(l, l0) || !bytes.Equal(r, r0) {
-					t.Fatalf("%s: Compress modified its operands", key)
+				if !bytes.Equal(lb, l0) || !bytes.Equal(rb, r0) {
+					t.Fatalf("%s: Compress modified its operands (or the bytes beyond their length)", key)
 				}
+				l, r = l[:len(l):len(l)], r[:len(r):len(r)]
 				// inadmissible operands => error, never a panic
 				bl, br := append([]byte{}, l...), append([]byte{}, r...)
 				var what string
@@ -532,6 +555,7 @@ func TestC14_SIS(t *testing.T) {
 				}
 				shape := rapid.IntRange(0, 5).Draw(t, "shape")
 				nonMultiple := false
+				spareSeen, sparePartial256, sparePartialPoly := false, false, false
 				for _, l := range lens {
 					v := make([]*big.Int, l)
 					for i := range v {
@@ -549,9 +573,23 @@ func TestC14_SIS(t *testing.T) {
 							v[i], _ = fs.Elem(t, "e")
 						}
 					}
-					got, err := lib.Hash(v, d)
+					// in half of the calls the input (and the result) vector is the prefix of a larger array whose
+					// tail holds non-zero poison: the digest depends on v[:len(v)] only and the tails stay untouched
+					spareIn, spareRes := 0, 0
+					if rapid.Bool().Draw(t, "spare") {
+						spareIn = rapid.SampledFrom([]int{1, 2, 3, d/per + 1, 255, 256, 300}).Draw(t, "spareIn")
+						spareRes = rapid.SampledFrom([]int{0, 1, d}).Draw(t, "spareRes")
+						spareSeen = true
+						if l%256 != 0 && l > 0 {
+							sparePartial256 = true
+						}
+						if (l*per)%d != 0 {
+							sparePartialPoly = true
+						}
+					}
+					got, err := lib.HashSpare(v, d, spareIn, spareRes)
 					if err != nil {
-						t.Fatalf("%s: Hash(%d elements): %v", key, l, err)
+						t.Fatalf("%s: Hash(%d elements, cap %d): %v", key, l, l+spareIn, err)
 					}
 					want, _ := R.Hash(v)
 					if !eqBigs(got, want) {
@@ -562,6 +600,18 @@ func TestC14_SIS(t *testing.T) {
 					}
 				}
 				cls = append(cls, fmt.Sprintf("shape=%d", shape))
+				if spareSeen {
+					cls = append(cls, "sis:spare_capacity_poison")
+					if sparePartialPoly {
+						cls = append(cls, "sis:spare+len_not_multiple_of_poly")
+					}
+					if logDeg == fastDeg && bound == 16 && si.field != "goldilocks" {
+						cls = append(cls, "sis:spare+fastpath_params")
+						if sparePartial256 {
+							cls = append(cls, "sis:spare+fastpath+len%256!=0")
+						}
+					}
+				}
 				// max+1 elements => error; wrong result length => error
 				over := make([]*big.Int, maxE+1)
 				for i := range over {
